@@ -99,6 +99,11 @@ def mk_register(kind="reg3"):
         return lay.define_register(0, 2, 1, qubit_ids=("q0", "q1", "q2"))
     if kind == "regint":  # integer ids, the first one is 0 (a falsy id)
         return Register({i: REG_COORDS[k] for i, k in enumerate(("q0", "q1", "q2"))})
+    if kind == "mapped3b":  # ... and with qubits={"q0": 2, "q1": 5}
+        from pulser.register.register_layout import RegisterLayout
+
+        lay = RegisterLayout([[0.0, 0.0], [5.0, 0.0], [0.0, 5.0], [5.0, 5.0], [10.0, 0.0], [10.0, 5.0]], slug="lay6")
+        return lay.define_register(2, 5, qubit_ids=("q0", "q1"))
     if kind == "mapped3":  # the concrete register that mappable3 resolves to with qubits={"q0": 1, "q1": 4}
         from pulser.register.register_layout import RegisterLayout
 
@@ -198,6 +203,10 @@ def mk_waveform(inp, w):
         return ConstantWaveform(val(inp, w[1]), val(inp, w[2]))
     if t == "ramp":
         return RampWaveform(val(inp, w[1]), val(inp, w[2]), val(inp, w[3]))
+    if t == "const_kw":
+        return ConstantWaveform(duration=val(inp, w[1]), value=val(inp, w[2]))
+    if t == "ramp_kw":
+        return RampWaveform(duration=val(inp, w[1]), start=val(inp, w[2]), stop=val(inp, w[3]))
     if t == "custom":
         if isinstance(w[1], dict):  # an array-valued expression
             return CustomWaveform(val(inp, w[1]))
@@ -227,6 +236,10 @@ def mk_pulse(inp, p):
                                    val(inp, p[5]) if len(p) > 5 else 0.0)
     if t == "pulse":
         return Pulse(mk_waveform(inp, p[1]), mk_waveform(inp, p[2]), val(inp, p[3]), val(inp, p[4]) if len(p) > 4 else 0.0)
+    if t == "pulse_kw":  # every argument by keyword
+        return Pulse(amplitude=mk_waveform(inp, p[1]), detuning=mk_waveform(inp, p[2]), phase=val(inp, p[3]))
+    if t == "cdet_kw":
+        return Pulse.ConstantDetuning(amplitude=mk_waveform(inp, p[1]), detuning=val(inp, p[2]), phase=val(inp, p[3]))
     if t == "cdet":
         return Pulse.ConstantDetuning(mk_waveform(inp, p[1]), val(inp, p[2]), val(inp, p[3]), val(inp, p[4]) if len(p) > 4 else 0.0)
     if t == "camp":
@@ -380,21 +393,21 @@ def snapshot(seq):
                        facade._unwrap0(p.post_phase_shift))
             else:
                 typ = (sl.type,)
-            slots.append((typ, sl.ti, sl.tf, frozenset(sl.targets)))
+            slots.append((typ, sl.ti, sl.tf, frozenset(str(q) for q in sl.targets)))  # (ids as strings: the abstract repr stringifies them)
         blocks = [(facade._unwrap0(b.rabi_freq), facade._unwrap0(b.detuning_on), facade._unwrap0(b.detuning_off),
                    b.ti, b.tf, tuple(b.switching_beams)) for b in cs.eom_blocks]
         extra = getattr(cs, "_waiting_for_first_pulse", None)
         sched[name] = dict(id=cs.channel_id, slots=slots, blocks=blocks, waiting=extra)
     s["schedule"] = sched
     s["basis_ref"] = {
-        b: {q: (list(r.phase._times), list(r.phase._phases), r.last_used) for q, r in d.items()}
+        b: {str(q): (list(r.phase._times), list(r.phase._phases), r.last_used) for q, r in d.items()}
         for b, d in seq._basis_ref.items()
     }
     s["calls"] = [(c.name, repr_args(c.args), repr_args(c.kwargs)) for c in seq._calls]
     s["to_build_calls"] = [(c.name, repr_args(c.args), repr_args(c.kwargs)) for c in seq._to_build_calls]
     s["flags"] = dict(building=seq._building, in_xy=seq._in_xy, in_ising=seq._in_ising_value,
                       mag=None if seq._mag_field is None else tuple(seq._mag_field), empty=seq._empty_sequence,
-                      slm_targets=frozenset(seq._slm_mask_targets), slm_dmm=seq._slm_mask_dmm,
+                      slm_targets=frozenset(str(q) for q in seq._slm_mask_targets), slm_dmm=seq._slm_mask_dmm,
                       measurement=getattr(seq, "_measurement", None), param_meas=seq._param_measurement,
                       variables=tuple(sorted(seq._variables)))
     return s
@@ -481,7 +494,7 @@ def timeline(seq):
     s = snapshot(seq)
     if not seq.is_register_mappable():
         # a sequence built from a mappable register keeps trackers for the ids it did not map: not part of its behaviour
-        ids = set(seq.register.qubit_ids)
+        ids = set(str(q) for q in seq.register.qubit_ids)
         s["basis_ref"] = {b: {q: t for q, t in d.items() if q in ids} for b, d in s["basis_ref"].items()}
     return dict(schedule={n: dict(slots=v["slots"], blocks=v["blocks"]) for n, v in s["schedule"].items()},
                 basis_ref={b: {q: (t[1][-1],) for q, t in d.items()} for b, d in s["basis_ref"].items()},
